@@ -411,7 +411,9 @@ pub fn storeops(seed: u64, n: usize, out: &mut Out) {
             canon.push_str(&op);
             log.push(format!("{op}    # -> {imp}"));
             out.line(op, imp.clone());
-            out.line("ssnap".into(), store.snapshot());
+            if store.len_cap().0 <= 12 || rng.chance(1, 10) {
+                out.line("ssnap".into(), store.snapshot());
+            }
             if imp != expect {
                 fails += 1;
                 if fails == 1 {
